@@ -253,11 +253,34 @@ func c17CheckLimits(ctx *vfCtx, c c17LimCase) {
 	ctx.Class("path/" + c.Path)
 
 	// variant: classes in which the version does not use this kind of identifier at all
+	// (domainless versions have 44-byte room IDs, the pseudo-ID version has key senders)
+	fieldVariant := func(name string) string {
+		switch {
+		case tr.Privileged && name == "room_id":
+			return "domainless"
+		case c.Version == "org.matrix.msc4014" && name == "sender":
+			return "pseudo-id"
+		}
+		return ""
+	}
 	variant := ""
-	if tr.Privileged && touched["room_id"] {
-		variant = "/domainless"
-	} else if c.Version == "org.matrix.msc4014" && touched["sender"] {
-		variant = "/pseudo-id"
+	for _, n := range c17MaskOrder {
+		if touched[n] && fieldVariant(n) != "" {
+			variant = "/" + fieldVariant(n)
+		}
+	}
+	// pick the field that decides the signature: prefer one of the kind the version does use
+	pick := func(order []string, set map[string]bool) string {
+		plain := map[string]bool{}
+		for n := range set {
+			if fieldVariant(n) == "" {
+				plain[n] = true
+			}
+		}
+		if len(plain) > 0 {
+			return c17First(order, plain)
+		}
+		return c17First(order, set)
 	}
 
 	// ---- run the library ----
@@ -329,33 +352,43 @@ func c17CheckLimits(ctx *vfCtx, c c17LimCase) {
 	desc := fmt.Sprintf("version %s, %s, fields %+v, size %d", c.Version, c.Path, c.Fields, c.Size)
 
 	// ---- judge ----
+	unchecked := func(f string) {
+		ctx.Fail("C17/limits/length-unchecked/"+f+"/"+fieldVariant(f),
+			"%s: the length of %s is not limited at all in this version (result %s, err %v); the statement's limits apply to every registered version", desc, f, got, err)
+	}
 	switch {
 	case len(cpOver) > 0:
 		ctx.Class("expect/refuse")
-		f := c17First(c17FieldOrder, cpOver)
-		switch got {
-		case "refused":
-		case "persistable", "persistable-without-event":
-			mask := c17First(c17MaskOrder, byteOver)
-			ctx.Fail("C17/limits/persistable-despite-excess/masked-by-"+mask+variant,
+		f := pick(c17FieldOrder, cpOver)
+		switch {
+		case got == "refused":
+		case fieldVariant(f) != "":
+			unchecked(f)
+		case got == "persistable" || got == "persistable-without-event":
+			mask := pick(c17MaskOrder, byteOver)
+			ctx.Fail("C17/limits/persistable-despite-excess/masked-by-"+mask,
 				"%s: %s exceeds the hard limit (255 code points / 65536 bytes) but the error is Persistable (%q): the byte-length error of %s was returned first", desc, f, eve.Message, mask)
 		default:
-			ctx.Fail("C17/limits/not-refused/"+f+"/"+c.Path+variant, "%s: %s exceeds the hard limit but the result is %s (err %v)", desc, f, got, err)
+			ctx.Fail("C17/limits/not-refused/"+f+"/"+c.Path, "%s: %s exceeds the hard limit but the result is %s (err %v)", desc, f, got, err)
 		}
 	case len(byteOver) > 0:
 		ctx.Class("expect/persistable")
-		f := c17First(c17MaskOrder, byteOver)
+		f := pick(c17MaskOrder, byteOver)
 		switch got {
 		case "persistable":
 			if eve.Code != EventValidationTooLarge {
-				ctx.Fail("C17/limits/persistable-wrong-code/"+f+"/"+c.Path+variant, "%s: persistable error has code %d, expected EventValidationTooLarge", desc, eve.Code)
+				ctx.Fail("C17/limits/persistable-wrong-code/"+f+"/"+c.Path, "%s: persistable error has code %d, expected EventValidationTooLarge", desc, eve.Code)
 			}
 		case "persistable-without-event":
-			ctx.Fail("C17/limits/persistable-without-event/"+f+"/"+c.Path+variant, "%s: %s exceeds only the 255-byte limit; the error is Persistable (%q) but no event is returned to persist", desc, f, eve.Message)
+			ctx.Fail("C17/limits/persistable-without-event/"+f+"/"+c.Path, "%s: %s exceeds only the 255-byte limit; the error is Persistable (%q) but no event is returned to persist", desc, f, eve.Message)
 		case "refused":
-			ctx.Fail("C17/limits/byte-excess-refused/"+f+"/"+c.Path+variant, "%s: %s exceeds only the 255-byte limit but the event is refused outright: %v", desc, f, err)
+			ctx.Fail("C17/limits/byte-excess-refused/"+f+"/"+c.Path, "%s: %s exceeds only the 255-byte limit but the event is refused outright: %v", desc, f, err)
 		default:
-			ctx.Fail("C17/limits/byte-excess-not-reported/"+f+"/"+c.Path+variant, "%s: %s exceeds the 255-byte limit but the result is %s", desc, f, got)
+			if fieldVariant(f) != "" {
+				unchecked(f)
+			} else {
+				ctx.Fail("C17/limits/byte-excess-not-reported/"+f+"/"+c.Path, "%s: %s exceeds the 255-byte limit but the result is %s", desc, f, got)
+			}
 		}
 	default:
 		if variant != "" {
@@ -875,7 +908,7 @@ func c17EnumVersions(size, shard, nshards int, emit func(c17VTCase)) {
 func init() {
 	ruleL := "non-trivial = every case: a limited field (type, state_key, sender, room_id) within +/-1 (thorough: +/-3) of the 255 limit measured in bytes or in code points with 1/2/3/4-byte filler runes, or the whole event within +/-1 of 65536 bytes, or one field over the byte limit only combined with another over the hard limit; x 16 room versions x {receipt, build}. distinct = distinct Case JSON."
 	vfEnum("C17/limits", ruleL, 1, 3, 4, c17EnumLimits, c17CheckLimits)
-	vfRapid("C17/limits-mixed", ruleL+" The mixed variant draws 0-4 fields at 250..260 and optionally an event size 65530..65542.", 600, 30000, 8, c17GenLimits, c17CheckLimits)
+	vfRapid("C17/limits-mixed", ruleL+" The mixed variant draws 0-4 fields at 250..260 and optionally an event size 65530..65542.", 1500, 40000, 8, c17GenLimits, c17CheckLimits)
 	ruleV := "non-trivial = every case: one row of the complete room-version table (16 registered versions + the registry itself), all columns."
 	vfEnum("C17/version-table", ruleV, 1, 1, 1, c17EnumVersions, c17CheckVersionTable)
 }
